@@ -98,6 +98,14 @@ TARGETS = [
     ("script.py", "p2sh_script", "p2sh_script", [("h160", "Bytes")], "List Script.Cmd", {"script_ctor": True}),
     ("script.py", "p2wpkh_script", "p2wpkh_script", [("h160", "Bytes")], "List Script.Cmd", {"script_ctor": True}),
     ("script.py", "p2wsh_script", "p2wsh_script", [("h256", "Bytes")], "List Script.Cmd", {"script_ctor": True}),
+    # ---- seventh batch: the path parser (C17).  The object is represented by its five optional slots and the private flag
+    ("wallet_utils.py", "list_get", "list_get", [("lst", "List (List Char)"), ("i", "Nat")], "Option (List Char)",
+     {"custom": "list_get"}),
+    ("wallet_utils.py", "Bip32Path.is_private", "is_private", [("sign", "List Char")], "Bool", {"strings": ["sign"]}),
+    ("wallet_utils.py", "Bip32Path.integrity_check", "integrity_check", [("slots", "List (Option Nat)")], "Option Unit",
+     {"option": True, "custom": "integrity_check"}),
+    ("wallet_utils.py", "Bip32Path.parse", "path_parse", [("s", "List Char")], "Option (List (Option Nat) × Bool)",
+     {"option": True, "custom": "path_parse"}),
     # ---- fifth batch: the argument validators of the command line (C20)
     ("__main__.py", "value_in_interval", "value_in_interval",
      [("value", "List Char"), ("min_", "Nat"), ("max_", "Nat"), ("name", "List Char")], "Option Int",
@@ -506,7 +514,11 @@ class Fn:
                         rhs = "(%s).map some" % rhs
                     parts.append("(%s %s %s)" % (lhs, "∈" if isinstance(op, ast.In) else "∉", rhs))
                 elif type(op) in CMPOPS:
-                    parts.append("(%s %s %s)" % (self.expr(left), CMPOPS[type(op)], self.expr(right)))
+                    l_, r_ = self.expr(left), self.expr(right)
+                    if isinstance(left, ast.Name) and left.id in self.strings and self.is_char(right) and \
+                            isinstance(right, ast.Constant):
+                        r_ = "[%s]" % r_            # a whole string compared with a one-character literal
+                    parts.append("(%s %s %s)" % (l_, CMPOPS[type(op)], r_))
                 else:
                     raise Unsupported("comparison " + type(op).__name__)
                 left = right
@@ -769,6 +781,60 @@ class Fn:
         return note + head + "\n" + "\n".join(body) + "\n"
 
 
+def _src(node):
+    return ast.unparse(node)
+
+
+def custom_emit(kind, node, lean, args, ret):
+    """Functions whose Python shape needs a dedicated rule (optional values, try/except, an object constructor).  Each
+    rule first CHECKS that the source has exactly the shape it knows (else Unsupported), then emits the Lean text."""
+    a = " ".join("(%s : %s)" % (x, t) for x, t in args)
+    body = [n for n in node.body if not (isinstance(n, ast.Expr) and isinstance(n.value, ast.Constant))]
+    if kind == "list_get":
+        # try: return lst[i]  except IndexError: return None
+        ok = (len(body) == 1 and isinstance(body[0], ast.Try) and len(body[0].body) == 1 and
+              _src(body[0].body[0]) == "return lst[i]" and len(body[0].handlers) == 1 and
+              _src(body[0].handlers[0].type) == "IndexError" and _src(body[0].handlers[0].body[0]) == "return None"
+              and not body[0].orelse and not body[0].finalbody)
+        if not ok:
+            raise Unsupported("list_get has another shape")
+        return "def %s %s : %s :=\n  lst[i]?\n" % (lean, a, ret)
+    if kind == "integrity_check":
+        want = ("none_found = False\nfor item in self._to_list():\n    if item is None:\n        none_found = True\n"
+                "    else:\n        if none_found:\n            raise RuntimeError('integrity check failure')\n"
+                "        if not isinstance(item, int):\n            raise ValueError('has to be int')")
+        if "\n".join(_src(n) for n in body) != want:
+            raise Unsupported("integrity_check has another shape")
+        # (the isinstance test cannot fail for slots produced by convert_hardened: they are ints)
+        return ("def %s %s : %s := do\n  let mut none_found := false\n  for item in slots do\n"
+                "    if item = none then\n      none_found := true\n    else\n      if none_found = true then\n"
+                "        none\n  return ()\n" % (lean, a, ret))
+    if kind == "path_parse":
+        names = ["purpose", "coin_type", "account", "chain", "addr_index"]
+        want = ["s_lst = s.split('/')", "if s_lst[0] not in ('m', 'M'):\n    raise ValueError('incorrect marker')"]
+        want += ["%s = list_get(s_lst, %d)" % (n, i + 1) for i, n in enumerate(names)]
+        ret_ = ("return cls(" + ", ".join("%s=cls.convert_hardened(%s) if %s else None" % (n, n, n) for n in names) +
+                ", private=cls.is_private(sign=s_lst[0]))")
+        want.append(ret_)
+        if [_src(n) for n in body] != want:
+            raise Unsupported("Bip32Path.parse has another shape")
+        lines = ["def %s %s : %s := do" % (lean, a, ret),
+                 "  let mut s_lst := (Text.splitOn (Char.ofNat 47) s)",
+                 "  if ((s_lst[0]!) ∉ [[Char.ofNat 109], [Char.ofNat 77]]) then",
+                 "    none"]
+        for i, n in enumerate(names):
+            lines.append("  let mut %s := (list_get s_lst %d)" % (n, i + 1))
+        for n in names:
+            # `convert_hardened(x) if x else None`: None and the empty string are falsy
+            lines.append("  let mut v_%s ← (if (%s ≠ none ∧ %s ≠ some []) then (do let x ← (convert_hardened (%s.getD [])); pure (some x)) "
+                         "else pure none : Option (Option Nat))" % (n, n, n, n))
+        slots = "[" + ", ".join("v_" + n for n in names) + "]"
+        lines.append("  let _ := (← (integrity_check %s))        -- Bip32Path.__init__ stores the five slots and runs integrity_check" % slots)
+        lines.append("  return (%s, (is_private (s_lst[0]!)))" % slots)
+        return "\n".join(lines) + "\n"
+    raise Unsupported("no custom rule " + kind)
+
+
 def find_function(tree, qual):
     parts = qual.split(".")
     nodes = tree.body
@@ -803,9 +869,12 @@ def translate_all():
             pyargs = [a.arg for a in node.args.args if a.arg not in ("self", "cls")]
             if False:
                 raise Unsupported("signature changed: %s" % pyargs)
-            if pyargs != [a for a, _ in args] and not opts.get("self_attrs"):
+            if pyargs != [a for a, _ in args] and not opts.get("self_attrs") and not opts.get("custom"):
                 raise Unsupported("parameter names changed: %s" % pyargs)
-            txt = Fn(node, lean, args, ret, opts).emit()
+            if opts.get("custom"):
+                txt = custom_emit(opts["custom"], node, lean, args, ret)
+            else:
+                txt = Fn(node, lean, args, ret, opts).emit()
             status[lean] = "ok"
         except Unsupported as e:
             a = " ".join("(%s : %s)" % (x, t) for x, t in list(opts.get("extra", [])) + list(args))
